@@ -32,11 +32,14 @@ func (e *Enc) encodeCall(fr *frame, st *bstate, res ssa.Value, call *ssa.CallCom
 		return
 	}
 	var args []Val
+	var ssaArgs []ssa.Value
 	if call.IsInvoke() {
 		args = append(args, e.val(call.Value))
+		ssaArgs = append(ssaArgs, call.Value)
 	}
 	for _, a := range call.Args {
 		args = append(args, e.val(a))
+		ssaArgs = append(ssaArgs, a)
 	}
 	if call.IsInvoke() {
 		// interface method call: contract on the interface method, if any
@@ -44,6 +47,7 @@ func (e *Enc) encodeCall(fr *frame, st *bstate, res ssa.Value, call *ssa.CallCom
 		key := ifaceMethodKey(recvT, call.Method)
 		e.oblige(st, "nil", e.anchor(pos, "invoke "+call.Method.Name()), sNot(sEq(e.asTerm(args[0]), "nil!iface")), pos)
 		if c := e.P.reg.Contracts[key]; c != nil {
+			e.curCallArgs = ssaArgs
 			bind(e.applyContract(fr, st, c, nil, call.Method, args, resType, pos))
 			return
 		}
@@ -74,6 +78,7 @@ func (e *Enc) encodeCall(fr *frame, st *bstate, res ssa.Value, call *ssa.CallCom
 		if funcKey(callee) == "sync#(*Mutex).Unlock" && len(call.Args) == 1 {
 			e.monitorInv(fr, st, call.Args[0], true, pos)
 		}
+		e.curCallArgs = ssaArgs
 		rv := e.applyContract(fr, st, c, callee, nil, args, resType, pos)
 		if funcKey(callee) == "sync#(*Mutex).Lock" && len(call.Args) == 1 {
 			e.afterLock(st, call.Args[0])
@@ -284,6 +289,7 @@ func packResults(rs []Val, resType types.Type) Val {
 // applyContract: assert pre, havoc frame, assume post.
 // Exactly one of callee / method is non-nil.
 func (e *Enc) applyContract(fr *frame, st *bstate, c *Contract, callee *ssa.Function, method *types.Func, args []Val, resType types.Type, pos token.Pos) Val {
+	defer func() { e.curCallArgs = nil }()
 	if c.Trusted {
 		e.externs[c.Key] = true
 	}
@@ -341,6 +347,12 @@ func (e *Enc) applyContract(fr *frame, st *bstate, c *Contract, callee *ssa.Func
 	} else {
 		for _, m := range c.Modifies {
 			target := ""
+			if strings.HasPrefix(m, "onlyfresh(") && strings.HasSuffix(m, ")") {
+				// the callee may write the object denoted by the argument and objects it allocates
+				// itself; every other pre-existing object keeps its state in every component
+				e.modifiesOnlyFresh(st, pre, c, strings.TrimSuffix(strings.TrimPrefix(m, "onlyfresh("), ")"), mkEnv, pnames, pos)
+				continue
+			}
 			if i := strings.Index(m, "@"); i >= 0 {
 				// "comp @ expr": only the object denoted by expr is modified
 				ex, err := parseCExpr(strings.TrimSpace(m[i+1:]))
@@ -801,5 +813,50 @@ func (e *Enc) monitorInv(fr *frame, st *bstate, mu ssa.Value, check bool, pos to
 		} else {
 			e.assume(st.reach, f)
 		}
+	}
+}
+
+// modifiesOnlyFresh implements "modifies onlyfresh(arg)".
+func (e *Enc) modifiesOnlyFresh(st, pre *bstate, c *Contract, argName string, mkEnv func(*bstate) *SpecEnv, pnames []string, pos token.Pos) {
+	// find the target reference: a pointer argument, or a pointer boxed into an interface at the call site
+	target := ""
+	idx := -1
+	for i, n := range pnames {
+		if n == argName {
+			idx = i
+		}
+	}
+	if idx >= 0 && idx < len(e.curCallArgs) {
+		a := e.curCallArgs[idx]
+		if mi, ok := a.(*ssa.MakeInterface); ok {
+			if _, isPtr := mi.X.Type().Underlying().(*types.Pointer); isPtr {
+				if v := e.val(mi.X); v.Loc == nil {
+					target = v.T
+				}
+			}
+		} else if _, isPtr := a.Type().Underlying().(*types.Pointer); isPtr {
+			if v := e.val(a); v.Loc == nil {
+				target = v.T
+			}
+		}
+	}
+	if target == "" {
+		e.note("modifies onlyfresh: target of " + shortKey(c.Key) + " not statically known (havoc)")
+		e.havocAll(st, c.Key)
+		return
+	}
+	e.W.needRoot()
+	if e.C != nil && e.C.HasMod {
+		e.oblige(st, "frame", "onlyfresh@call "+shortKey(c.Key), app(">", app("root", target), e.entryAlloc), pos)
+	}
+	allocPre := e.heapVar(pre, e.allocComp())
+	for _, n := range append([]string(nil), e.W.compOrder...) {
+		comp := e.W.comps[n]
+		if comp.Kind == "alloc" || comp.Kind == "global-ext" || comp.Kind == "iter" || !strings.HasPrefix(comp.Sort, "(Array Int ") {
+			continue
+		}
+		old := e.heapVar(st, comp)
+		nv := e.newHeapVersion(st, comp)
+		e.assert(fmt.Sprintf("(forall ((r Int)) (! (=> (and (<= (root r) %s) (not (= (root r) (root %s)))) (= (select %s r) (select %s r))) :pattern ((select %s r))))", allocPre, target, nv, old, nv))
 	}
 }
